@@ -47,8 +47,17 @@ class World:
         self.header = header
         self.stats = stats
         self.model_specs = list(header["models"])
-        self.bases = [[gm.build_basis(s) for s in spec["sites"]] for spec in self.model_specs]
-        self.models = [gm.build_model(spec, basis) for spec, basis in zip(self.model_specs, self.bases)]
+        self.bases, self.models = [], []
+        for spec in self.model_specs:
+            if "holstein" in spec:
+                from simlab.chain_thermal import build_holstein
+                m = build_holstein(spec["holstein"])
+                self.models.append(m)
+                self.bases.append(list(m.basis))
+            else:
+                basis = [gm.build_basis(s) for s in spec["sites"]]
+                self.bases.append(basis)
+                self.models.append(gm.build_model(spec, basis))
         self.h = {}
         self.nh = 0
         self.scratch = scratch
